@@ -92,7 +92,15 @@ def run_case(rng, res, case_id):
 
         nops = rng.randint(1, tier_len(rng))
         for _ in range(nops):
-            kind = rng.choices(['call', 'query', 'clear'], [6, 3, 0.5])[0]
+            kind = rng.choices(['call', 'query', 'clear', 'log'], [6, 3, 0.5, 1])[0]
+            if kind == 'log':
+                # the logging form of a query: it reports, it must not change what later queries report
+                longest = max([len(v) for v in ref.values()], default=0)
+                mh_ = rng.choice([None] + list(range(1, longest + 3)))
+                tracing.log_trace(average=rng.random() < 0.5, max_history=mh_, loglevel=5)
+                ops_desc.append(('log', mh_))
+                res.count('log_trace_calls')
+                continue
             if kind == 'call':
                 f = rng.randrange(nfun)
                 mode = 'raise' if rng.random() < 0.15 else 'ret'
